@@ -175,12 +175,8 @@ func runC14(c *Ctx, w *World, r *Report) {
 				}
 				// write under bit != 0
 				guarded := false
-				for _, cd := range fa.Conds(wr.Ins.Block()) {
-					if bo, ok := cd.V.(*ssa.BinOp); ok && (bo.Op == token.NEQ && cd.Pol || bo.Op == token.EQL && !cd.Pol) {
-						if k, ok := constInt64(stripConv(bo.Y)); ok && k == 0 && stripConv(bo.X) == rd.Use {
-							guarded = true
-						}
-					}
+				if bitKnownSet(fa.Conds(wr.Ins.Block()), rd) {
+					guarded = true
 				}
 				if !guarded {
 					bad = "destination bit is not written exactly under (source bit != 0)"
